@@ -296,13 +296,7 @@ func DocFlow(w *load.World, c *core.Collector) {
 			if setPoint != nil {
 				bad := ""
 				for _, o := range originSet(ssax.ResolveField(setPoint.Call.Args[1], "Point", "Data")) {
-					ex, ok := o.Val.(*ssa.Extract)
-					okM := false
-					if ok && len(o.Path) == 0 {
-						if call, ok := ex.Tuple.(*ssa.Call); ok && call.Call.StaticCallee() != nil && strings.HasSuffix(call.Call.StaticCallee().String(), "msgpack/v5.Marshal") {
-							okM = true
-						}
-					}
+					okM := len(o.Path) == 0 && isMarshalResult(o.Val, 0)
 					if !okM {
 						bad = o.String()
 					}
@@ -336,4 +330,58 @@ func canReachInstr(a, b ssa.Instruction) bool {
 		}
 	}
 	return false
+}
+
+// isMarshalResult: v is the encoded output of msgpack.Marshal, directly or as the
+// corresponding result of a module helper all of whose returns yield such a
+// value (or nil on its error paths).
+func isMarshalResult(v ssa.Value, depth int) bool {
+	if depth > 3 {
+		return false
+	}
+	var call *ssa.Call
+	idx := 0
+	switch x := v.(type) {
+	case *ssa.Extract:
+		call, _ = x.Tuple.(*ssa.Call)
+		idx = x.Index
+	case *ssa.Call:
+		call = x
+	case *ssa.Phi:
+		for _, e := range x.Edges {
+			if !ssax.IsNilConst(e) && !isMarshalResult(e, depth+1) {
+				return false
+			}
+		}
+		return len(x.Edges) > 0
+	}
+	if call == nil {
+		return false
+	}
+	g := call.Call.StaticCallee()
+	if g == nil {
+		return false
+	}
+	if strings.HasSuffix(g.String(), "msgpack/v5.Marshal") {
+		return idx == 0
+	}
+	if !ssax.InModule(g) || len(g.Blocks) == 0 {
+		return false
+	}
+	found := false
+	for _, b := range g.Blocks {
+		ret, ok := b.Instrs[len(b.Instrs)-1].(*ssa.Return)
+		if !ok || idx >= len(ret.Results) {
+			continue
+		}
+		r := ret.Results[idx]
+		if ssax.IsNilConst(r) {
+			continue
+		}
+		if !isMarshalResult(r, depth+1) {
+			return false
+		}
+		found = true
+	}
+	return found
 }
